@@ -1,6 +1,6 @@
 CONSTANTS
   Names = {"a", "b", "c"}
-  ShapeIds = {1, 2, 3, 4, 5, 6, 9, 10, 11}
+  ShapeIds = {1, 2, 3, 4, 5, 6, 9, 10, 11, 12, 13, 14}
   ExtNames = {"a", "b", "c"}
   MaxMods = 8
   MaxExt = 5
@@ -12,4 +12,4 @@ INIT Init
 NEXT Next
 ACTION_CONSTRAINT EmitEnd
 INVARIANTS BindLatest LocalBinding RedefRejected ConstructErrors UndefinedReported EnvIsLatest Shape
-PROPERTIES OldBindingsStable
+PROPERTIES OldBindingsStable CallValuesStable
